@@ -416,6 +416,9 @@ func (c *FnCtx) phiByName(fr *frame, li *loopInfo, name string) (Val, bool) {
 // debugLookup finds the SSA value of a source variable that is not changed
 // inside the loop (or, without a loop, its last definition seen so far).
 func (c *FnCtx) debugLookup(fr *frame, li *loopInfo, name string) (Val, bool) {
+	if v, isAddrTaken, ok := c.addrTakenLocal(fr, name); isAddrTaken {
+		return v, ok
+	}
 	var best ssa.Value
 	bestAddr := false
 	consider := func(d *ssa.DebugRef) {
@@ -459,6 +462,11 @@ func (c *FnCtx) debugLookup(fr *frame, li *loopInfo, name string) (Val, bool) {
 		// a local array is used through its address (indexing, slicing)
 		if pt, ok := best.Type().Underlying().(*types.Pointer); ok && v.K == kPtr {
 			if _, isArr := pt.Elem().Underlying().(*types.Array); isArr {
+				return v, true
+			}
+			// a local struct whose address is taken: the name denotes the
+			// variable (fields are read in the state of the clause)
+			if _, isStruct := pt.Elem().Underlying().(*types.Struct); isStruct {
 				return v, true
 			}
 		}
